@@ -59,6 +59,9 @@ def run(ctx):
     rule_keepttl(ctx, F)
     rule_walk(ctx, F)
     rule_owner(ctx, F)
+    rule_batch(ctx, F)
+    rule_diffboth(ctx, F)
+    rule_delall(ctx, F)
     # abandoned work is rolled back (shared rules)
     c09.rule_rbk(ctx, F)
     c09.rule_drop(ctx, F)
@@ -489,3 +492,107 @@ def rule_owner(ctx, F):
         ctx.ob(R, b, "the child's owner starts with the child's label", roots == {1},
                "update_child builds the child's owner name from %s, not from the label of the child (a captured value)"
                % show(tm)[:120], b.where(bb))
+
+
+def rule_batch(ctx, F):
+    """A record the batcher could not fit into the current message is not lost: where push_ref reports `NotPushed..`,
+    try_push hands the full message to the callbacks and answers `Retry` (never a `Pushed..` result), and `push` answers
+    `Retry` by pushing the same record again."""
+    R = "C10.batch"
+    ctx.floor(R, 2)
+    bs = [b for p, b in F.bodies.items() if re.search(r"^net::server::batcher::CallbackBatcher::<.*>::try_push(::<.*>)?$", p)]
+    if not ctx.anchor(R, "CallbackBatcher::try_push", len(bs) == 1):
+        return
+    b = bs[0]
+    n = 0
+    for bi in sorted(b.reachable_blocks()):
+        for st in b.blocks[bi]["s"]:
+            if st[0] == "=" and st[2][0] == "agg" and st[2][1][0] == "adt" and str(st[2][1][1]).endswith("batcher::PushResult"):
+                arm = [o[1] for tm, o in outcome_facts(b, bi, F) if isinstance(o, tuple) and o[0] == "variant" and str(o[1]).startswith(("NotPushed", "Pushed"))]
+                if not arm:
+                    continue
+                n += 1
+                res = st[2][1][2]
+                ok = not (arm[-1].startswith("NotPushed") and str(res).startswith("Pushed"))
+                ctx.ob(R, b, "after %s the caller is told %s" % (arm[-1], res), ok,
+                       "try_push answers %s although push_ref reported %s: the record that did not fit into the message is never "
+                       "pushed into the next one -- every message boundary of a transfer loses a record" % (res, arm[-1]), b.where(bi))
+    ctx.ob(R, b, "result arms found", n >= 2, "found %d" % n, nontrivial=False)
+    ps = [pb for p, pb in F.bodies.items() if re.search(r"CallbackBatcher<.*> as net::server::batcher::ResourceRecordBatcher<.*>>::push(::<.*>)?$", p)]
+    if ctx.anchor(R, "<CallbackBatcher as ResourceRecordBatcher>::push", len(ps) == 1):
+        pb = ps[0]
+        tries = pb.calls_matching(r"CallbackBatcher::<.*>::try_push(::<.*>)?$")
+        again = False
+        for bb, t in tries:
+            if any(isinstance(o, tuple) and o[0] == "variant" and o[1] == "Retry" for tm, o in outcome_facts(pb, bb, F)):
+                again = True
+        ctx.ob(R, pb, "Retry makes push try the same record again", len(tries) >= 2 and again,
+               "push does not call try_push a second time under the Retry result")
+
+
+def rule_diffboth(ctx, F):
+    """The difference set of an RRset that loses some records and gains others has both parts: in
+    WriteNode::update_rrset the recording of the removed records and the recording of the added records are
+    independent -- neither call is reached only on one outcome of the other part's emptiness test."""
+    R = "C10.diffboth"
+    ctx.floor(R, 2)
+    bodies = [b for p, b in F.bodies.items() if re.search(r"^zonetree::in_memory::write::WriteNode::update_rrset", p)]
+    sites = []
+    for b in bodies:
+        for bb, t in b.calls():
+            m = re.search(r"InMemoryZoneDiffBuilder::(add|remove)$", t["fn"] or "")
+            if m:
+                sites.append((b, bb, m.group(1)))
+    if not ctx.anchor(R, "diff.add / diff.remove in WriteNode::update_rrset", len(sites) >= 2):
+        return
+    for b, bb, kind in sites:
+        tested = set()
+        for tm, v in bool_facts(b, bb, F):
+            d = deep_strip(tm)
+            while d[0] == "un" and d[1] == "Not":
+                d = deep_strip(d[2])
+            if d[0] == "call" and re.search(r"::is_empty$", d[1] or "") and d[3]:
+                tested.add(d[5] if len(d) > 5 else show(deep_strip(d[3][0]))[:60])    # one test per call site
+        ctx.ob(R, b, "%s is recorded whatever the other part looks like" % ("the added part" if kind == "add" else "the removed part"), len(tested) <= 1,
+               "update_rrset records the %s records only under a condition on *both* parts (%s): when an RRset loses one record and "
+               "gains another in the same version only one half is reported, and the diff applied to the old zone does not give "
+               "the new one" % ("added" if kind == "add" else "removed", "%d emptiness tests" % len(tested)), b.where(bb))
+
+
+def rule_delall(ctx, F):
+    """A full transfer first tells the consumer to discard what it has.  Whether the transfer *is* a full one can change
+    while a record is processed (an IXFR answered AXFR-style is recognised at its second record), so the test
+    `actual_xfr_type == Axfr` that guards the DeleteAllRecords update reads the field after the last place that
+    assigns it -- a value read earlier says IXFR for the record at which the fallback is discovered, and DeleteAllRecords
+    then follows the first addition."""
+    R = "C10.delall"
+    ctx.floor(R, 1)
+    b = F.one_body(r"^net::xfr::protocol::interpreter::RecordProcessor::process_record$")
+    if not ctx.anchor(R, "RecordProcessor::process_record", b):
+        return
+    dels = [bi for bi in b.reachable_blocks() for st in b.blocks[bi]["s"]
+            if st[0] == "=" and st[2][0] == "agg" and st[2][1][0] == "adt" and "DeleteAllRecords" in str(st[2][1][2:3])]
+    def is_type_field(pl):
+        return any(isinstance(x, list) and x[0] == "." and x[2] == "actual_xfr_type" for x in pl[1:]) and pl[0] == 1
+    stores = [bi for bi in b.reachable_blocks() for st in b.blocks[bi]["s"] if st[0] == "=" and len(st[1]) > 1 and is_type_field(st[1])]
+    reads = []
+    for bi in sorted(b.reachable_blocks()):
+        t = b.blocks[bi]["t"]
+        if t["k"] == "call" and re.search(r"PartialEq(<.*>)?::(eq|ne)$", t["fn"] or ""):
+            if any(show(deep_strip(b.term_of_operand(a))).endswith("actual_xfr_type") for a in t["args"]):
+                reads.append(bi)
+    if not ctx.anchor(R, "DeleteAllRecords, the assignments of actual_xfr_type and its comparison in process_record",
+                      bool(dels) and bool(stores) and bool(reads), b.where()):
+        return
+    for d in dels:
+        guards = [r for r in reads if b.dominates(r, d)]
+        ok = bool(guards)
+        late = None
+        for r in guards:
+            for s_ in stores:
+                if s_ in b.reach_from(r) and d in b.reach_from(s_) and s_ != r:
+                    ok, late = False, s_
+        ctx.ob(R, b, "the transfer type is tested after it was last assigned", ok,
+               "process_record decides about DeleteAllRecords from a value of actual_xfr_type read before the match that can switch "
+               "the transfer to AXFR (store at %s): for an IXFR answered with a full zone the first record is added before "
+               "DeleteAllRecords arrives and is wiped by it" % (b.where(late) if late is not None else "?"), b.where(d))
